@@ -90,6 +90,30 @@ impl Cfg {
         }
     }
 
+    /// every nonterminal reachable from `start` derives some terminal string
+    pub fn reduced_from(&self, start: usize) -> bool {
+        let h = self.min_height();
+        let mut seen = vec![false; self.nts.len()];
+        let mut todo = vec![start];
+        while let Some(n) = todo.pop() {
+            if seen[n] {
+                continue;
+            }
+            seen[n] = true;
+            if h[n].is_none() {
+                return false;
+            }
+            for alt in &self.nts[n] {
+                for s in alt {
+                    if let S::N(j) = s {
+                        todo.push(*j);
+                    }
+                }
+            }
+        }
+        true
+    }
+
     /// random sentence of nonterminal `nt` (terminal indices of THIS Cfg), None if unproductive
     pub fn sample(&self, r: &mut Rng, nt: usize, budget: usize) -> Option<Vec<usize>> {
         let h = self.min_height();
